@@ -3,7 +3,7 @@
    truth[h] is the set in force at height h as the chain of real State values defines
    it; LookupExact compares LoadValidators(h) with it for every retained height.   *)
 EXTENDS TMValStore
-CONSTANTS InitialHeight, MaxBlocks, Scenario, BootstrapToo
+CONSTANTS InitialHeight, MaxBlocks, Scenario, BootstrapToo, Discard
 
 V(a, p) == [a |-> a, p |-> p]
 \* scenario 1: three equal validators; a power cut followed by swapping a validator for a
@@ -33,7 +33,7 @@ Init ==
      /\ db = SaveState(EmptyDB, Genesis).db
      /\ truth = (InitialHeight :> SetView(Genesis.vals)) @@ (InitialHeight + 1 :> SetView(Genesis.nvals))
      /\ base = InitialHeight
-     /\ act = [name |-> "Genesis", batch |-> << >>, to |-> 0]
+     /\ act = [name |-> "Genesis", batch |-> << >>, to |-> 0, crash |-> FALSE]
   \/ /\ BootstrapToo
      /\ LET s1 == Advance(Genesis, 1)
             \* statesync/stateprovider.go State(): LastHeightValidatorsChanged = height of NextValidators
@@ -42,19 +42,26 @@ Init ==
            /\ db = BootstrapState(EmptyDB, s2, s1.vals).db
            /\ truth = (s2.h :> SetView(s1.vals)) @@ (s2.h + 1 :> SetView(s2.vals)) @@ (s2.h + 2 :> SetView(s2.nvals))
            /\ base = s2.h
-     /\ act = [name |-> "Bootstrap", batch |-> << >>, to |-> 0]
+     /\ act = [name |-> "Bootstrap", batch |-> << >>, to |-> 0, crash |-> FALSE]
 
 Blocks == IF st.h = 0 THEN 0 ELSE st.h - st.ih + 1
 
-ApplyBlock(b) ==
+\* one block: SaveABCIResponses, [crash between Commit and Save, handshake], updateState, Save.
+\* crash = FALSE: the state is computed from the responses in memory (ApplyBlockUpdates);
+\* crash = TRUE : it is rebuilt from the stored recovery copy (RecoverFromStoredResponses).
+\* truth gets the set the batch PRESCRIBES in either case.
+ApplyBlock(b, crash) ==
   /\ Blocks < MaxBlocks
-  /\ LET u == UpdateState(st, b) IN
-     /\ u.err = "none"
+  /\ LET resp == [vu |-> b, cpu |-> 0]
+         want == ApplyBlockUpdates(st, resp)
+         u    == IF crash THEN RecoverFromStoredResponses(st, resp, Discard) ELSE want
+     IN
+     /\ want.err = "none" /\ u.err = "none"
      /\ st' = u.st
      /\ db' = SaveState(db, u.st).db
-     /\ truth' = (u.st.h + 2 :> SetView(u.st.nvals)) @@ truth
+     /\ truth' = (want.st.h + 2 :> SetView(want.st.nvals)) @@ truth
   /\ UNCHANGED base
-  /\ act' = [name |-> "Apply", batch |-> b, to |-> 0]
+  /\ act' = [name |-> "Apply", batch |-> b, to |-> 0, crash |-> crash]
 
 \* consensus.State.pruneBlocks: PruneStates(base, retainHeight), retainHeight <= store height
 Prune(to) ==
@@ -64,14 +71,18 @@ Prune(to) ==
      /\ db' = r.db
   /\ base' = to
   /\ UNCHANGED <<st, truth>>
-  /\ act' = [name |-> "Prune", batch |-> << >>, to |-> to]
+  /\ act' = [name |-> "Prune", batch |-> << >>, to |-> to, crash |-> FALSE]
 
-Next == (\E b \in BatchChoices : ApplyBlock(b)) \/ (\E to \in (base + 1)..(st.h) : Prune(to))
+\* (a crash while applying a block without validator updates recovers trivially; not enumerated)
+Next == (\E b \in BatchChoices : ApplyBlock(b, FALSE) \/ (Len(b) > 0 /\ ApplyBlock(b, TRUE))) \/ (\E to \in (base + 1)..(st.h) : Prune(to))
 Spec == Init /\ [][Next]_vars
 
 Retained == {h \in DOMAIN truth : h >= base}
 LookupExact == \A h \in Retained : LookupExactAt(db, h, truth[h])
 PruneKeeps  == \A h \in Retained : PruneKeepsAt(db, h)
+\* the node's own state carries the prescribed sets (recovery = uninterrupted application)
+RecoveryExact == /\ SetView(st.nvals) = truth[NextBlockHeight(st) + 1]
+                 /\ SetView(st.vals) = truth[NextBlockHeight(st)]
 TruthWellFormed == \A h \in DOMAIN truth : WellFormed(truth[h].vals) /\ NoClip(truth[h].vals)
 \* the proposer stored with a set is the member its last rotation chose
 ProposerIsMember == \A h \in DOMAIN truth : \E i \in DOMAIN truth[h].vals : truth[h].vals[i] = truth[h].prop
